@@ -64,4 +64,16 @@ theorem escape_witness :
 /-- non-vacuity of `confined_partial`: an ordinary output path -/
 example : confined [47, 115, 114, 118] (pjoin [47, 115, 114, 118] [119, 47, 111, 46, 111]) = true := by decide
 
+/-- `toolchain_path_confined` (fix 718dc21): for **every** id the toolchain cache accepts (`valid_archive_id`: at least two bytes, all
+    hex digits) the file it uses resolves to exactly `<root>/<id[0]>/<id[1]>/<id>` — below the cache root — and the slicing of
+    `make_lru_key_path` cannot fail; every other client-supplied id is refused before a path is built -/
+theorem toolchain_path_confined (root id : Bytes) (hv : validId id = true) :
+    resolve (keyPath root id) = resolve root ++ [id.take 1, (id.drop 1).take 1, id] := PathsM.keyPath_confined root id hv
+
+/-- the ids of the round-0 finding are refused now: empty, one byte, `../../x`, `/abs` -/
+theorem bad_ids_refused : validId [] = false ∧ validId [97] = false ∧ validId [46, 46, 47, 46, 46, 47, 120] = false ∧ validId [47, 97, 98] = false := by decide
+
+/-- non-vacuity: a digest-like id is accepted -/
+example : validId [48, 97, 102, 57] = true := by decide
+
 end C19
